@@ -435,7 +435,12 @@ def run_meta(case):
         if isinstance(v, dict) and not chans:
             v = list(v.values())[0]
         if k == "illum_polarization" and v is not None:
-            v = {c: tuple(p) for c, p in v.items()} if isinstance(v, dict) else tuple(v)
+            # the (x, y) pair, or the same vector with an explicit zero z component, as tuple, list or array
+            form = case["seed"] % 4
+
+            def shape_(p):
+                return [tuple(p), (p[0], p[1], 0.0), [p[0], p[1], 0.0], np.array([p[0], p[1], 0.0])][form]
+            v = {c: shape_(p) for c, p in v.items()} if isinstance(v, dict) else shape_(v)
         upd[k] = v
     labels = ["channels_%d" % len(chans or []), "fields_%d" % sum(v is not None for v in upd.values())]
     new = update_metadata(im, **upd)
